@@ -286,6 +286,7 @@ pub struct Seen {
     pub merged_compatible: u64,
     pub merged_incompatible: u64,
     pub merged_itf_onesided: u64,
+    pub interface_order_not_kept: u64,
     pub merged_member_onesided: u64,
     pub merged_member_shared_differs: u64,
     pub sig_dropped: u64,
@@ -568,6 +569,10 @@ fn diff_with_known(stage: &str, name: &str, want: &Sem, got: &Sem, seen: &mut Se
             seen.known_localvars += 1;
         }
         out.push(issue("semantic-mismatch", format!("{stage}.{path}"), format!("{name:?}: first difference at {path}")));
+        if std::env::var_os("C13_DUMP").is_some() {
+            // debugging aid for replays (stderr only; not part of any observation)
+            eprintln!("---- {stage} {name}: difference at {path}\n-- expected\n{}\n-- got\n{}", refclass::dump::dump(&want), refclass::dump::dump(&got));
+        }
         if !neutralise(&mut want, &mut got, &path) {
             return;
         }
@@ -664,7 +669,7 @@ fn has_dup<K: PartialEq>(a: &[K]) -> bool {
 
 /// exactly-once union + order clause for one keyed list. Returns false when the list is unusable for the
 /// member-wise comparison (missing/duplicate/extra keys).
-fn check_keys<K: PartialEq + std::fmt::Debug>(path: &str, name: &str, a: &[K], b: &[K], r: &[K], seen: &mut Seen, out: &mut Vec<Issue>) -> bool {
+fn check_keys<K: PartialEq + std::fmt::Debug>(path: &str, name: &str, a: &[K], b: &[K], r: &[K], order_clause: bool, seen: &mut Seen, out: &mut Vec<Issue>) -> bool {
     let mut ok = true;
     for k in a.iter().chain(b.iter().filter(|k| !a.contains(k))) {
         let n = r.iter().filter(|x| *x == k).count();
@@ -697,11 +702,20 @@ fn check_keys<K: PartialEq + std::fmt::Debug>(path: &str, name: &str, a: &[K], b
         }
         let ra: Vec<&K> = r.iter().filter(|k| a.contains(k)).collect();
         let rb: Vec<&K> = r.iter().filter(|k| b.contains(k)).collect();
-        if ra != a.iter().collect::<Vec<_>>() {
-            out.push(issue("semantic-mismatch", format!("{path}.order.client"), format!("{name:?}: client order {a:?} and server order {b:?} are compatible, merged order {r:?} does not keep the client's")));
-        }
-        if rb != b.iter().collect::<Vec<_>>() {
-            out.push(issue("semantic-mismatch", format!("{path}.order.server"), format!("{name:?}: client order {a:?} and server order {b:?} are compatible, merged order {r:?} does not keep the server's")));
+        let keeps_a = ra == a.iter().collect::<Vec<_>>();
+        let keeps_b = rb == b.iter().collect::<Vec<_>>();
+        if !order_clause {
+            // the statement's order clause speaks of members (fields, methods); for interfaces it is only counted
+            if !keeps_a || !keeps_b {
+                seen.interface_order_not_kept += 1;
+            }
+        } else {
+            if !keeps_a {
+                out.push(issue("semantic-mismatch", format!("{path}.order.client"), format!("{name:?}: client order {a:?} and server order {b:?} are compatible, merged order {r:?} does not keep the client's")));
+            }
+            if !keeps_b {
+                out.push(issue("semantic-mismatch", format!("{path}.order.server"), format!("{name:?}: client order {a:?} and server order {b:?} are compatible, merged order {r:?} does not keep the server's")));
+            }
         }
     } else {
         seen.merged_incompatible += 1;
@@ -728,7 +742,7 @@ fn check_merged(name: &str, client: &[u8], server: &[u8], got: &[u8], seen: &mut
     }
 
     // ---- interfaces
-    let itf_ok = check_keys("merged-class.interface", name, &c.interfaces, &s.interfaces, &got.interfaces, seen, out);
+    let itf_ok = check_keys("merged-class.interface", name, &c.interfaces, &s.interfaces, &got.interfaces, false, seen, out);
     let mut malformed = vec![];
     let mut marks = take_itf_marks(&mut got.annotations, &mut malformed);
     for m in &malformed {
@@ -770,8 +784,8 @@ fn check_merged(name: &str, client: &[u8], server: &[u8], got: &[u8], seen: &mut
     }
 
     // ---- fields and methods: exactly once, order, marks, bodies
-    let f_ok = check_keys("merged-class.field", name, &cf, &sf, &fkeys(&got), seen, out);
-    let m_ok = check_keys("merged-class.method", name, &cm, &sm, &mkeys(&got), seen, out);
+    let f_ok = check_keys("merged-class.field", name, &cf, &sf, &fkeys(&got), true, seen, out);
+    let m_ok = check_keys("merged-class.method", name, &cm, &sm, &mkeys(&got), true, seen, out);
 
     // expected class: class-level facts are NOT constrained by the property -> taken from the result itself;
     // members: the source member of the side it came from (shared: the client's, see assumptions)
